@@ -1,31 +1,47 @@
 #!/usr/bin/env python3
-"""Summarises /verif/seeded/results.jsonl (last result per seed x property), updates each meta.json's `detected_by`,
-and prints the markdown table used in DESIGN.md section 7.5."""
+"""Summarises the runs of the checks against the seeded changes and prints the markdown table of DESIGN.md 8.6.
+Sources: seeded/results.jsonl (registered checks run through tools/seed_run.py: Kani harness groups, last result per
+seed x property) and seeded/cert_results.jsonl (certificate engine, quick size, all families, through
+tools/seed_cert.py; `caught_by_checks` = properties whose own families contain a violating universe).
+Also updates each meta.json's `detected_by`."""
 import glob, json, os
-res = {}
+res, cert = {}, {}
 for l in open('/verif/seeded/results.jsonl'):
     d = json.loads(l)
     res[(d['seed'], d['property'])] = d
+if os.path.exists('/verif/seeded/cert_results.jsonl'):
+    for l in open('/verif/seeded/cert_results.jsonl'):
+        d = json.loads(l)
+        if 'error' not in d:
+            cert[d['seed']] = d
 seeds = sorted(os.path.basename(os.path.dirname(p)) for p in glob.glob('/verif/seeded/*/meta.json'))
-print("| seeded change | files | breaks | checks run (quick) | result |")
+print("| change | file | breaks | Kani harness checks (run -> caught) | certificate engine, quick size (checks whose families catch it) |")
 print("|---|---|---|---|---|")
+n_kani = n_cert = n_any = 0
 for s in seeds:
     mp = '/verif/seeded/%s/meta.json' % s
     m = json.load(open(mp))
     runs = sorted((p, d) for (sd, p), d in res.items() if sd == s)
     det = [p for p, d in runs if d['exit'] == 1]
-    inc = [p for p, d in runs if d['exit'] == 2]
     harn = sorted(set(h[0] for p, d in runs for h in d['violating_harnesses']))
-    if det:
-        verdict = "**caught** by %s (%s)" % (", ".join(det), ", ".join(harn[:3]))
-    elif inc:
-        verdict = "inconclusive (%s)" % ", ".join(inc)
-    elif runs:
-        verdict = "missed"
+    k = ("%s -> **%s** (%s)" % (",".join(p for p, _ in runs), ",".join(det), ", ".join(harn[:2]))) if det else (
+        "%s -> none" % ",".join(p for p, _ in runs) if runs else "not run")
+    c = cert.get(s)
+    if c is None:
+        cc = "not run (no solver code touched)" if not any(f.startswith(("src/solver", "src/conflict", "src/snapshot")) for f in m['files_changed']) else "not run"
+    elif c.get('caught_by_checks'):
+        cc = "**" + ", ".join(c['caught_by_checks']) + "**"
     else:
-        verdict = "not run"
-    m['detected_by'] = {"checks_run": [p for p, _ in runs], "caught_by": det, "harnesses": harn[:6],
-                        "exit_codes": {p: d['exit'] for p, d in runs}}
+        cc = "none"
+    n_kani += bool(det)
+    n_cert += bool(c and c.get('caught_by_checks'))
+    n_any += bool(det or (c and c.get('caught_by_checks')))
+    m['detected_by'] = {"kani_checks_run": [p for p, _ in runs], "kani_caught_by": det, "harnesses": harn[:6],
+                        "certificate_engine_caught_by": (c or {}).get('caught_by_checks'),
+                        "certificate_engine_first_violations": (c or {}).get('first', [])[:2]}
     json.dump(m, open(mp, 'w'), indent=1)
-    print("| %s | %s | %s | %s | %s |" % (s, ", ".join(os.path.basename(f) for f in m['files_changed']), m['what_it_breaks'][:110].replace("|", "/"),
-                                       ", ".join(p for p, _ in runs), verdict))
+    print("| %s | %s | %s | %s | %s |" % (s, ", ".join(os.path.basename(f) for f in m['files_changed']),
+                                       m['what_it_breaks'][:100].replace("|", "/"), k, cc))
+print()
+print("%d changes; caught by a Kani harness check: %d; caught by the certificate engine (quick size): %d; caught by at least one: %d"
+      % (len(seeds), n_kani, n_cert, n_any))
